@@ -136,7 +136,7 @@ S_LOOP = {"name": "loop", "harness": lambda t, s: ["loop", "-n", str(_loop_n(t))
 S_ENGINE = {"name": "engine",
             "harness": lambda t, s: ["engine", "-n", str(2500 if t == "thorough" else 250), "-seed", str(s + 23), "-tier", t],
             "driver": None, "monitor": mon_c08_engine,
-            "nontrivial": lambda c: any(b.get("outcome") != "success" or b.get("deploy_fail") for b in c.get("behaviours", {}).values())
+            "nontrivial": lambda c: any(b.get("outcome") != "success" or b.get("deploy_fail") or b.get("start_fail") for b in c.get("behaviours", {}).values())
             or len(c.get("wf", {}).get("steps", [])) > 2,
             "sample": _engine_sample}
 
